@@ -16,6 +16,8 @@ structure Resume where
   id : Nat
   maxTs : Nat
   start : Nat
+  /-- `resume_start_time()` of the resumed lifecycle when the resume was detected (it does not change afterwards) -/
+  eff : Nat
 deriving Repr, DecidableEq
 
 structure Lc where
@@ -36,6 +38,13 @@ def maxDelay : Nat := Gen.lcMaxBufferingDelayUs
 def u64Max : Nat := 18446744073709551615
 
 def Msg.tsUs (m : Msg) : Nat := m.tsDms * 100
+
+/-- `Lifecycle::resume_start_time`: the key of the listing that `adlt remote` sends - never before the (key of the) lifecycle
+    it resumes -/
+def Lc.resumeStart (l : Lc) : Nat :=
+  match l.resume with
+  | some r => if l.start ≤ r.eff then r.eff + 1 else l.start
+  | none => l.start
 
 def Lc.endTime (l : Lc) : Nat := if l.maxTs == 0 then l.lastRecv else l.start + l.maxTs
 
@@ -91,7 +100,7 @@ def Lc.apply (l : Lc) (nextId : Nat) (m : Msg) : Upd → Lc × Msg × Option Lc
   | .belongs => (l.absorb m, { m with lc := l.id }, none)
   | .fresh isResume =>
     let nl := (Lc.new nextId m).1
-    let nl := if isResume then { nl with resume := some { id := l.id, start := l.start, maxTs := l.maxTs } } else nl
+    let nl := if isResume then { nl with resume := some { id := l.id, start := l.start, maxTs := l.maxTs, eff := l.resumeStart } } else nl
     (l, { m with lc := nextId }, some nl)
 
 def Lc.update (l : Lc) (nextId : Nat) (m : Msg) : Lc × Msg × Option Lc := l.apply nextId m (l.classify m)
